@@ -97,7 +97,7 @@ def run_breadlog(config_path, check=False, cwd=None, env=None, tmpdir=None, time
     e = dict(os.environ if env is None else env)
     e.pop("RUST_LOG", None)
     e["RUST_BACKTRACE"] = "0"
-    if tmpdir:
+    if tmpdir is not None:
         e["TMPDIR"] = tmpdir
     if shim:
         e["LD_PRELOAD"] = SHIM
